@@ -117,8 +117,10 @@ class LinearOperator(Function):
                 # Constraint Y^T Y <= L^2 X^T X
                 T1[i, j] = (self.L ** 2) * xi * xj - yi * yj
 
-        psd_matrix1 = PSDMatrix(matrix_of_expressions=T1)
-        self.list_of_class_psd.append(psd_matrix1)
+        # No LMI for an operator that has not been evaluated (an empty matrix is not a constraint)
+        if N1 > 0:
+            psd_matrix1 = PSDMatrix(matrix_of_expressions=T1)
+            self.list_of_class_psd.append(psd_matrix1)
 
         # Add constraint of singular value upper bound of self.T
         N2 = len(self.T.list_of_points)
@@ -134,5 +136,7 @@ class LinearOperator(Function):
                 # Constraint V^T V <= L^2 U^T U
                 T2[i, j] = (self.L ** 2) * ui * uj - vi * vj
 
-        psd_matrix2 = PSDMatrix(matrix_of_expressions=T2)
-        self.list_of_class_psd.append(psd_matrix2)
+        # No LMI for an operator that has not been evaluated (an empty matrix is not a constraint)
+        if N2 > 0:
+            psd_matrix2 = PSDMatrix(matrix_of_expressions=T2)
+            self.list_of_class_psd.append(psd_matrix2)
